@@ -57,6 +57,10 @@ CHECKS = {
    technique="TLA+ spec EDITokens.tla (left-to-right reference scanner vs. the code's escape-parity index search, split and unescape; CR/LF rules; element lookup) checked by TLC on every short symbol string x configuration; emitted cases replayed on edi.NonValidatingReader and the full EDI reader; random logical segments re-tokenized by TLC (Trace_EDITokens.tla)",
    text="TLC proves, for every symbol string up to 4 (thorough 5) symbols and all 24 delimiter/release/CRLF configurations, that the code's formulation of splitting and unescaping equals the left-to-right reference and that escaping round-trips. All cases (sampled above length 3) are replayed on the real tokenizer in ASCII, multi-byte-rune and two-character renderings, and on the full reader for six element-declaration sets. Random unicode segments with long elements and chunked delivery are round-tripped and re-tokenized by TLC.",
    note="Trusted: TLC, the symbol renderer. go-corelib's scanner/ByteUnescape are exercised but not modelled beyond what EDITokens.tla states."),
+ "C08": dict(cat="model_checking", design="5/C08",
+   technique="TLA+ spec DocTree.tla (JSON token handlers building the typed tree; marshal2 conversion back) checked by TLC for ToTokens(Build(v)) = v on every small value; cases replayed on the real reader, J2NodeToInterface/JSONify2 and the copy function; random deeper values re-built by TLC (Trace_DocTree.tla); XML trees compared with an independent DOM",
+   text="TLC checks the round trip of the reader/marshal model for every JSON value of depth 1 over keys {'',a,b} and six scalars; each value is replayed on the real JSONStreamReader, both converters and the copy custom_func through a full Transform, in a plain and a payload-substituted rendering, against encoding/json's decoding; random values up to depth 4 are rebuilt by TLC from the logged token stream. XML fidelity is decided by comparing the node tree of hand-written and random documents with a DOM built independently from encoding/xml events.",
+   note="Trusted: TLC, encoding/json and encoding/xml as references, the renderers. The XML half is a differential exploration (no TLA+ model of XML events)."),
 }
 
 def main():
